@@ -81,7 +81,7 @@ func goSemCases(cx *ctx) {
 				}
 				return "0"
 			}
-			switch rr2.Intn(15) {
+			switch rr2.Intn(20) {
 			case 12:
 				var xs, hs []string
 				for i := rr2.Intn(6); i > 0; i-- {
@@ -135,6 +135,41 @@ func goSemCases(cx *ctx) {
 				rest := len(data) - k
 				return &h.Case{Kind: "gosem-readfull", Line: fmt.Sprintf("goreadfull %s %s %d", h.Hex(data), bit(fail), n),
 					Impl: fmt.Sprintf("%s %s rest=%d", h.Hex(buf[:k]), cls, rest), NonTrivial: true}
+			case 15: // len(bytes.TrimSpace(b)) == 0, on strings rich in (pieces of) space encodings
+				spaces := []string{" ", "\t", "\n", "\v", "\f", "\r", "\u0085", "\u00a0", "\u1680", "\u2000", "\u2005", "\u200a", "\u200b", "\u2028", "\u2029", "\u202f", "\u205f", "\u3000",
+					"\xc2", "\xe2\x80", "\xe1\x9a", "\x85", "\xa0", "\xe3\x80", "\x1c", "\u180e", "\ufeff", "x"}
+				var b []byte
+				for i := rr2.Intn(6); i > 0; i-- {
+					if rr2.Intn(12) == 0 {
+						b = append(b, s...)
+					} else {
+						b = append(b, spaces[rr2.Intn(len(spaces)-rr2.Intn(2)*10)]...)
+					}
+				}
+				return &h.Case{Kind: "gosem-allspace", Line: "goallspace " + h.Hex(b), Impl: bit(len(bytes.TrimSpace(b)) == 0), NonTrivial: true, Note: fmt.Sprintf("%q", b)}
+			case 16:
+				sets := []string{"\r\n", "a", "", " -+"}
+				set := sets[rr2.Intn(len(sets))]
+				return &h.Case{Kind: "gosem-containsany", Line: "gocontainsany " + hx(s) + " " + hx(set), Impl: bit(bytes.ContainsAny([]byte(s), set)), NonTrivial: true}
+			case 17:
+				v := rr2.Intn(1 << uint(1+rr2.Intn(40)))
+				if rr2.Intn(4) == 0 {
+					v = -v
+				}
+				return &h.Case{Kind: "gosem-itoa", Line: fmt.Sprintf("goitoa %d", v), Impl: h.Hex([]byte(strconv.Itoa(v))), NonTrivial: true}
+			case 18:
+				return &h.Case{Kind: "gosem-hex", Line: "gohex " + hx(s), Impl: hx(hex.EncodeToString([]byte(s))), NonTrivial: true}
+			case 19:
+				data := []byte(s + t)
+				n := rr2.Intn(len(data) + 3)
+				br := bufio.NewReader(bytes.NewReader(data))
+				got, err := io.ReadAll(io.LimitReader(br, int64(n)))
+				rest, _ := io.ReadAll(br)
+				cls := "nil"
+				if err != nil {
+					cls = "err"
+				}
+				return &h.Case{Kind: "gosem-readalllimit", Line: fmt.Sprintf("goreadalllimit %s %d", h.Hex(data), n), Impl: fmt.Sprintf("%s %s rest=%d", h.Hex(got), cls, len(rest)), NonTrivial: true}
 			case 14:
 				data := []byte(s)
 				delim := byte('\n')
